@@ -127,13 +127,16 @@ func (s *Sniffer) readStreamOnceWithReadDeadline() error {
 		return nil
 	}
 	close(s.dataReady)
-	s.dataError = err
 
 	var netErr net.Error
 	if errors.As(err, &netErr) && netErr.Timeout() {
+		// The sniff deadline is ours, not a failure of the stream: do not record
+		// it as dataError, or every later Read of the relay would keep returning
+		// the timeout and cut a connection whose client was merely slow.
 		// Keep behavior consistent with context timeout path in the legacy async read.
 		return fmt.Errorf("%w: %w", ErrNotApplicable, context.DeadlineExceeded)
 	}
+	s.dataError = err
 	return err
 }
 
